@@ -102,11 +102,16 @@ func (g *Gen) valsFor(typ string) Vals {
 		if typ == "integer" && g.R.Chance(1, 6) {
 			v.Enum = g.intEnum()
 		}
+		if g.R.Chance(1, 4) {
+			// every integer is a multiple of both: the witnesses of the edit catalogue stay valid
+			v.MultipleOf = map[string]float64{"integer": 1, "number": 0.5}[typ]
+		}
 	case "array":
 		if g.R.Chance(1, 2) {
 			v.MinItems = g.optInt(0, 2)
 			v.MaxItems = g.optInt(3, 8)
 		}
+		// (uniqueItems is not drawn: the catalogue's array witnesses repeat one element)
 	}
 	return v
 }
@@ -116,9 +121,10 @@ func (g *Gen) formatFor(typ string) string {
 	case "string":
 		return g.R.Pick([]string{"", "", "", "date", "date-time", "password", "byte", "uuid"})
 	case "integer":
-		return g.R.Pick([]string{"", "", "int32", "int64"})
+		// formats outside the analyser's numberWideness table too: the bounds of such integers are still compared
+		return g.R.Pick([]string{"", "", "int32", "int64", "int32", "int64", "uint32", "uint64", "int8", "uint16"})
 	case "number":
-		return g.R.Pick([]string{"", "", "float", "double"})
+		return g.R.Pick([]string{"", "", "float", "double", "float", "double", "decimal"})
 	}
 	return ""
 }
